@@ -269,8 +269,7 @@ theorem scanNext_cons (dn : Bool) (c : UInt8) (t : Bytes) (h13 : c ≠ 13) (h10 
           let extra := contExtra (B1.drop (n1 + 1))
           let nEnd := n1 + extra
           let region := trimValue (B1.take nEnd)
-          let value := if extra > 0 then
-              (((normValAux false region).dropWhile (· == 32)).reverse.dropWhile isOWS).reverse else region
+          let value := if extra > 0 then foldedValue region else region
           .kv key value (B1.drop (nEnd + 1)) (n + 1 + sp + nEnd + 1) := by
   unfold scanNext
   split
